@@ -3,6 +3,7 @@ import checks_stream
 import checks_noise
 import checks_keyring
 import checks_cli
+import checks_prims
 
 CHECKS = {
     "C01": checks_stream.c01,
@@ -22,6 +23,9 @@ CHECKS = {
     "C16": checks_cli.c16,
     "C17": checks_keyring.c17,
     "C11": checks_stream.c11,
+    "C18": checks_prims.c18,
+    "C19": checks_prims.c19,
+    "C20": checks_prims.c20,
 }
 
 
